@@ -59,14 +59,12 @@ package dispatch
 //@   ensures result == w.lastWrite
 
 //@ func Dispatcher.LastReadTime
-//@   requires d != nil
 //@   modifies d.obsRead
 //@   ghost_set d.obsRead = result
 //@   ensures result == d.obsRead
 //@   ensures from_watcher: result == d.torrent.lastRead
 
 //@ func Dispatcher.LastWriteTime
-//@   requires d != nil
 //@   modifies d.obsWrite
 //@   ghost_set d.obsWrite = result
 //@   ensures result == d.obsWrite
